@@ -476,13 +476,13 @@ structure GoodTrade (tol : K) (fee : K → K → K) (secs : List (RSec ι K)) (p
   found : (findSec tr.name secs).isSome = true
   nz : isZero tol tr.qty = false
   price : px tr.name = some tr.price
-  unit : multOf tr.name secs = 1 ∨ tr.spread = 0
-  feeEq : fee tr.qty ((tr.price + tr.spread / tr.qty) * multOf tr.name secs) = fee tr.qty (tr.price * multOf tr.name secs)
+  multEq : multOf tr.name secs = tr.mult
+  multNz : tr.mult ≠ 0
+  feeEq : fee tr.qty ((tr.price + tr.spread / tr.mult / tr.qty) * tr.mult) = fee tr.qty (tr.price * tr.mult)
 
 theorem GoodTrade.bump {tol : K} {fee : K → K → K} {secs : List (RSec ι K)} {px : ι → Option K} {tr : OTrade ι K}
     (h : GoodTrade tol fee secs px tr) (k' : ι) (q : K) : GoodTrade tol fee (bumpPos k' q secs) px tr :=
-  ⟨by rw [found_bumpPos]; exact h.found, h.nz, h.price, by rw [multOf_bumpPos]; exact h.unit,
-   by rw [multOf_bumpPos]; exact h.feeEq⟩
+  ⟨by rw [found_bumpPos]; exact h.found, h.nz, h.price, by rw [multOf_bumpPos]; exact h.multEq, h.multNz, h.feeEq⟩
 
 theorem qty_ne_zero {tol : K} (htol : 0 < tol) {q : K} (h : isZero tol q = false) : q ≠ 0 := by
   intro e; subst e
@@ -491,23 +491,21 @@ theorem qty_ne_zero {tol : K} (htol : 0 < tol) {q : K} (h : isZero tol q = false
 /-- one row: the replayed transaction books what the original trade booked -/
 theorem replayRow_listed {tol : K} (htol : 0 < tol) {fee : K → K → K} {px : ι → Option K} (st : RState ι K)
     {tr : OTrade ι K} (h : GoodTrade tol fee st.secs px tr) :
-    replayRow true tol fee px st tr.name (some tr.qty) (ofNum (tr.price + tr.spread / tr.qty)) =
+    replayRow true tol fee px st tr.name (some tr.qty) (ofNum (tr.price + tr.spread / tr.mult / tr.qty)) =
       .ok (applyTrade st tr.name tr.qty (origCost fee (multOf tr.name st.secs) tr)) := by
   obtain ⟨s, hs⟩ := Option.isSome_iff_exists.1 h.found
   have hm : multOf tr.name st.secs = s.mult := by simp [multOf, hs]
+  have hsm : s.mult = tr.mult := by rw [← hm]; exact h.multEq
   have hq := qty_ne_zero htol h.nz
-  have hcost : replayOutlay tr.qty tr.price (tr.price + tr.spread / tr.qty) s.mult +
-      fee tr.qty ((tr.price + tr.spread / tr.qty) * s.mult) = origCost fee s.mult tr := by
-    have hf := h.feeEq
-    rw [hm] at hf
+  have hmz := h.multNz
+  have hcost : replayOutlay tr.qty tr.price (tr.price + tr.spread / tr.mult / tr.qty) s.mult +
+      fee tr.qty ((tr.price + tr.spread / tr.mult / tr.qty) * s.mult) = origCost fee s.mult tr := by
+    rw [hsm]
     unfold replayOutlay origCost
-    rw [hf]
-    have e : tr.qty * (tr.price + tr.spread / tr.qty - tr.price) * s.mult = tr.spread * s.mult := by
+    rw [h.feeEq]
+    have e : tr.qty * (tr.price + tr.spread / tr.mult / tr.qty - tr.price) * tr.mult = tr.spread := by
       field_simp; ring
     rw [e]
-    rcases h.unit with h1 | h1
-    · rw [hm] at h1; rw [h1]; ring
-    · rw [h1]; ring
   unfold replayRow
   simp only [hs, h.nz, Bool.false_eq_true, ↓reduceIte, Bool.not_true, h.price, ofNum_eq]
   rw [hcost, hm]
@@ -554,8 +552,7 @@ theorem sameShape_origDay (fee : K → K → K) : ∀ (trades : List (OTrade ι 
 
 theorem GoodTrade.shape {tol : K} {fee : K → K → K} {a b : List (RSec ι K)} {px : ι → Option K} {tr : OTrade ι K}
     (h : GoodTrade tol fee a px tr) (hs : SameShape a b) : GoodTrade tol fee b px tr :=
-  ⟨by rw [(hs tr.name).1]; exact h.found, h.nz, h.price, by rw [(hs tr.name).2]; exact h.unit,
-   by rw [(hs tr.name).2]; exact h.feeEq⟩
+  ⟨by rw [(hs tr.name).1]; exact h.found, h.nz, h.price, by rw [(hs tr.name).2]; exact h.multEq, h.multNz, h.feeEq⟩
 
 end Replay
 
@@ -871,11 +868,15 @@ def nodeC (full short : Nat) : Node Nat := { full, short, isSec := true }
 
 /-- a strategy's row -/
 def cellS (value notl cash price : ℚ) : Cell ℚ :=
-  { value, notl, pos := 0, outlay := 0, boPaid := 0, cash, price := some price }
+  { value, notl, pos := 0, outlay := 0, boPaid := 0, cash, price := some price, mult := 1 }
 
-/-- a security's row -/
+/-- a security's row (multiplier 1) -/
 def cellC (value notl pos outlay boPaid price : ℚ) : Cell ℚ :=
-  { value, notl, pos, outlay, boPaid, cash := 0, price := some price }
+  { value, notl, pos, outlay, boPaid, cash := 0, price := some price, mult := 1 }
+
+/-- a security's row with a multiplier -/
+def cellM (value notl pos outlay boPaid price mult : ℚ) : Cell ℚ :=
+  { value, notl, pos, outlay, boPaid, cash := 0, price := some price, mult }
 
 /-- root (cash 40) over a security `5` (3 units @10), a sub-strategy (cash 10) and its own security `5` (2 units @10):
     100 = (40 + 10) + (30 + 20) -/
@@ -907,7 +908,7 @@ def tolQ : ℚ := 1 / 10 ^ 16
 def rtStart : RState Nat ℚ := { cash := 1000, secs := [{ name := 1, mult := 1, pos := 0 }] }
 
 /-- a same-date round trip: buy 4 @10 and sell 4 @10, each paying 1 of spread -/
-def rtTrades : List (OTrade Nat ℚ) := [{ name := 1, qty := 4, price := 10, spread := 1 }, { name := 1, qty := -4, price := 10, spread := 1 }]
+def rtTrades : List (OTrade Nat ℚ) := [{ name := 1, qty := 4, price := 10, spread := 1, mult := 1 }, { name := 1, qty := -4, price := 10, spread := 1, mult := 1 }]
 
 /-- the histories that round trip leaves: the position is 0 before and after, the date's bid/offer paid is 2, cash 998 -/
 def rtRun : Run Nat ℚ :=
@@ -916,7 +917,7 @@ def rtRun : Run Nat ℚ :=
                [(nodeS 0 0, cellS 998 0 998 (998 / 10)), (nodeC 1 1, cellC 0 0 0 2 2 10)] ] }
 
 /-- a single buy of 4 @10 paying 1 of spread -/
-def oneTrade : OTrade Nat ℚ := { name := 1, qty := 4, price := 10, spread := 1 }
+def oneTrade : OTrade Nat ℚ := { name := 1, qty := 4, price := 10, spread := 1, mult := 1 }
 
 /-- the histories of that single buy -/
 def oneRun : Run Nat ℚ :=
@@ -925,6 +926,36 @@ def oneRun : Run Nat ℚ :=
                [(nodeS 0 0, cellS 999 40 959 (999 / 10)), (nodeC 1 1, cellC 40 40 4 41 1 10)] ] }
 
 def px10 : Nat → Option ℚ := fun _ => some 10
+
+/-- one security `1` with multiplier 10, 1000 in cash -/
+def mStart : RState Nat ℚ := { cash := 1000, secs := [{ name := 1, mult := 10, pos := 0 }] }
+
+/-- a buy of 4 @10 on a multiplier-10 security with half spread 1/4: 4·¼·10 = 10 of spread (cash) -/
+def mTrade : OTrade Nat ℚ := { name := 1, qty := 4, price := 10, spread := 10, mult := 10 }
+
+/-- the histories of that buy -/
+def mRun : Run Nat ℚ :=
+  { fi := false, boSet := true,
+    dates := [ [(nodeS 0 0, cellS 1000 0 1000 100), (nodeC 1 1, cellM 0 0 0 0 0 10 10)],
+               [(nodeS 0 0, cellS 990 400 590 99), (nodeC 1 1, cellM 400 400 4 410 10 10 10)] ] }
+
+/-- a ticker `5` held by two nodes: the first bought 3 and paid 1 of spread, the second bought 2 and paid nothing -/
+def sharedSnap : Snap Nat ℚ :=
+  [ (nodeS 0 0, cellS 100 50 40 101), (nodeC 1 5, cellC 30 30 3 31 1 10), (nodeS 2 2, cellS 30 20 10 100),
+    (nodeC 3 5, cellC 20 20 2 20 0 10) ]
+
+/-! the formulas the code used BEFORE the repairs 1793789 / 445d8ee / 9e115a9 (kept for the witnesses only) -/
+
+/-- pre-repair `get_transactions` price: only the LAST same-named security's bid/offer paid, divided by the
+    quantity alone (multiplier ignored) -/
+def txnPriceOld (k : Nat) (d : ℚ) (s : Snap Nat ℚ) : Option ℚ :=
+  match lastOf Cell.price k s, lastOf Cell.boPaid k s with
+  | some (some p), some b => some (p + b / d)
+  | _, _ => none
+
+/-- pre-repair `Backtest.turnover`: NaN on every date of a run without securities -/
+def turnoverAtOld (s : Snap Nat ℚ) : Option ℚ :=
+  if (outlaysAt s).isEmpty then none else turnoverAt s
 
 end Examples
 
